@@ -165,6 +165,13 @@ class PropertyCall:
 SPEC_NAMES = {'TXT', 'ALL', 'SAME_ITEMS', 'MATCH', 'NOMATCH'}
 
 
+class ClosureEnv:
+    """variables visible to a nested function / lambda at the point of its definition (snapshot)"""
+
+    def __init__(self, env):
+        self.env = dict(env)
+
+
 class Unbound:
     def __repr__(self):
         return '<unbound>'
@@ -1020,7 +1027,7 @@ class Exec:
         return out
 
     def e_Lambda(self, node, st):
-        return [(st, Func(self.fn + '.<locals>.<lambda>', node=node, closure=st))]
+        return [(st, Func(self.fn + '.<locals>.<lambda>', node=node, closure=ClosureEnv(st.env)))]
 
     def e_GeneratorExp(self, node, st):
         return [(st, Opaque('genexp', (node, st)))]
@@ -1355,7 +1362,7 @@ class Exec:
         return names
 
     def s_FunctionDef(self, stmt, st):
-        st.env[stmt.name] = Func(self.fn + '.<locals>.' + stmt.name, node=stmt, closure=st)
+        st.env[stmt.name] = Func(self.fn + '.<locals>.' + stmt.name, node=stmt, closure=ClosureEnv(st.env))
         return [(st, Outcome.NEXT, None)]
 
     def s_With(self, stmt, st):
